@@ -9,7 +9,7 @@ COMMON_ASSUMPTIONS = [
 
 HEADROOM = "machine arithmetic is not treated as mathematical: overflow side conditions are explicit preconditions (`headroom`): fewer than 2^24 indices ever allocated and fewer than 2^31-4 reuses of one index"
 
-STORAGE_ASSUME = ["the storage layer is proved against the trait-level contract of UnprotectedStorage<T> for an ARBITRARY implementor; DenseVecStorage, HashMapStorage and BTreeStorage are proved to satisfy it as real trait impls (unit kinds, over the MaybeUninit / UnsafeCell / unchecked-Vec / map stubs of prelude/std_unsafe.rs and std_maps.rs); for VecStorage, DefaultVecStorage and NullStorage (whose 'which slots hold a value' exists only in the caller's mask, so no contract over their own fields can define has()) conformance is the bounded Kani part (C04 kinds), listed separately and never counted as proved",
+STORAGE_ASSUME = ["the storage layer is proved against the trait-level contract of UnprotectedStorage<T> for an ARBITRARY implementor; DenseVecStorage, HashMapStorage and BTreeStorage are proved to satisfy it as real trait impls (unit kinds, over the MaybeUninit / UnsafeCell / unchecked-Vec / map stubs of prelude/std_unsafe.rs and std_maps.rs); VecStorage and DefaultVecStorage (whose 'which slots hold a value' exists only in the caller's mask, so no contract over their own fields can define has()) are proved against MASK-RELATIVE contracts (unit veckinds: element-wise postconditions, unsafe preconditions discharged, restated for an arbitrary caller mask); that these two and NullStorage satisfy the trait-level contract itself on the real unsafe code is the bounded Kani part (C04 kinds, thorough tier), listed separately and never counted as proved",
                   "N8: D is instantiated at &MaskedStorage / &mut MaskedStorage (the Fetch/FetchMut aliases), AccessMut<'a> at &'a mut T (so `.access_mut()` is the identity reborrow)",
                   "N13/N14: cfg!(panic = \"abort\") covered for both values; the nested unwinding guard of not_present_insert is hoisted and its Drop body left external (unwinding is outside this family); mem::forget ends the guard's borrow (axiom_guard_resolved)"]
 
@@ -21,11 +21,11 @@ PROPS = {
     'C17': dict(units=['world'], witness='alloc',
                 assumptions=[HEADROOM]),
     'C03': dict(units=['join'], witness='storage', assumptions=[HEADROOM] + STORAGE_ASSUME),
-    'C04': dict(units=['storage', 'flagged', 'kinds'], witness='storage', assumptions=[HEADROOM] + STORAGE_ASSUME + [
+    'C04': dict(units=['storage', 'flagged', 'kinds', 'veckinds'], witness='storage', assumptions=[HEADROOM] + STORAGE_ASSUME + [
                     "unit kinds: 64-bit target (usize = 8 bytes); MaybeUninit<T> modelled as an optional value whose assume_init* REQUIRE initialisation; SyncUnsafeCell/UnsafeCell modelled as a plain cell (get() = shared reference), so shared_get_mut / SliceAccess (raw pointer casts) are not covered; Vec::set_len leaves new elements arbitrary, its capacity precondition and allocation failure are not modelled; AHashMap/BTreeMap are assumed finite maps",
                     "BOUNDED part (Kani, thorough tier only — the smallest VecStorage harness needs 11 minutes, mostly CBMC symbolic execution of Vec growth; reported under coverage.bounded): VecStorage / DefaultVecStorage against the raw-operation contract from every well-formed state within the stated small bounds, u16 components; the thorough tier also re-checks DenseVecStorage on the real unsafe code (cross-check of the stubs used by the proof); NullStorage only in the C08 harness"],
                 kani=dict(files=['storages_harness.rs'], quick=[], thorough=['vec_step_small', 'vec_step', 'default_vec_step_small', 'default_vec_step', 'dense_step'], timeout=3000)),
-    'C08': dict(units=['storage', 'kinds'], witness=None, level='other',
+    'C08': dict(units=['storage', 'kinds', 'veckinds'], witness=None, level='other',
                 # deductive support for the harness assumption "clean() gets the true mask": the mask/content invariant and the exact
                 # map effect of every layer function that moves a value in or out (Verus, unit storage)
                 also=[r'^storage::(MaskedStorage|Storage\(&mut\)|OccupiedEntry|VacantEntry|Drain_\w+)::\w+::ens\.(wf|map|ret|raw)$', r'^storage::UnprotectedStorage::drop\(default\)::'],
@@ -103,7 +103,7 @@ MANIFEST_TEXT = {
         design_ref='DESIGN.md §5 C03', note=TB + ' Trait-level storage contract.',
         technique='Verus postconditions (whole-view frame) on each extracted access path, against a trait-level storage contract'),
     'C04': dict(
-        level="Layer: unbounded proof that MaskedStorage/Storage/entry/drain/get_mut_or_default behave as Map<Index,T> operations (exact return values, exact new map, invariant mask == set of stored indices, raw accessors only called with their precondition) for ANY implementor of the trait-level contract. Kinds: the real `impl UnprotectedStorage` of DenseVecStorage (redirection tables, swap-remove fix-up, growth by set_len; representation invariant + pigeonhole lemma for the u32 cast), HashMapStorage and BTreeStorage are verified by Verus against the same contract (unbounded, over stubs for MaybeUninit / UnsafeCell / unchecked Vec access / the map types); that Vec/DefaultVec/Null storages satisfy it is checked by Kani on the real unsafe code with small bounds (labelled bounded, not counted as proved).",
+        level="Layer: unbounded proof that MaskedStorage/Storage/entry/drain/get_mut_or_default behave as Map<Index,T> operations (exact return values, exact new map, invariant mask == set of stored indices, raw accessors only called with their precondition) for ANY implementor of the trait-level contract. Kinds: the real `impl UnprotectedStorage` of DenseVecStorage (redirection tables, swap-remove fix-up, growth by set_len; representation invariant + pigeonhole lemma for the u32 cast), HashMapStorage and BTreeStorage are verified by Verus against the same contract (unbounded, over stubs for MaybeUninit / UnsafeCell / unchecked Vec access / the map types); VecStorage and DefaultVecStorage, which keep no record of occupancy themselves, are verified against mask-relative contracts (unit veckinds: exact element-wise effects of insert/remove/get_mut/clean, the unchecked accesses and assume_init* preconditions discharged, growth to exactly id+1, Default padding); their conformance to the trait-level contract on the real unsafe code (and NullStorage) is additionally checked by Kani with small bounds in the thorough tier (labelled bounded, not counted as proved).",
         design_ref='DESIGN.md §5 C04', note=TB + ' Unsafe primitives are stubs with their documented safety conditions as preconditions; Vec/DefaultVec/Null conformance is bounded (Kani).',
         technique='Verus contracts on the generic layer and on three real storage impls against a trait-level contract; bounded Kani conformance harnesses for the kinds whose content lives only in the caller\'s mask'),
     'C13': dict(
